@@ -72,6 +72,7 @@ var cliPolicies = []func(b uint32, i int) uint32{
 func wordsFor(gen func() (*spg.Password, error), p int) ([]uint32, GenOut) {
 	t := policyTape(cliPolicies[p])
 	t.LogOn = true
+	t.LogOn = true
 	install(t)
 	out := runGen(gen)
 	t.EndCall()
